@@ -316,6 +316,10 @@ impl Model for M {
         out.into_bytes()
     }
 
+    fn probe_once_per_state(&self) -> bool {
+        true
+    }
+
     fn probe(&self, mut s: Sys, _hist: &[Ev]) -> Result<u64, Fail> {
         // destructive probes: a datagram sealed by either end opens at the other; wire key id = sender's current slot
         for dir in 0..2 {
@@ -408,10 +412,10 @@ pub fn run(ctx: &Ctx) {
             ctx,
             &fam,
             &m,
-            ExploreOpts { max_depth: depth, wall_cap: Duration::from_secs(ctx.tier.pick(40, 1500)), state_cap: ctx.tier.pick(300_000, 5_000_000), dedup: true },
+            ExploreOpts { max_depth: depth, wall_cap: Duration::from_secs(ctx.tier.pick(400, 1500)), state_cap: ctx.tier.pick(300_000, 5_000_000), dedup: true },
         );
         if i == 0 {
-            explore::audit_dedup(ctx, &fam, &m, &res, ctx.tier.pick(5, 6), Duration::from_secs(ctx.tier.pick(30, 600)));
+            explore::audit_dedup(ctx, &fam, &m, &res, ctx.tier.pick(5, 6), Duration::from_secs(ctx.tier.pick(300, 600)));
         }
     }
     ctx.assume("two parties; pool of at most 4 in-flight rotation datagrams (when full the oldest is lost, which is a legal network behaviour; occurrences are visible in the outcome classes)");
